@@ -85,7 +85,7 @@ class StubModel:
         return np.array(self._sample[:n], dtype=float)
 
 
-def run_impl(sample, alpha, deg_step, supplied=True, n=None, gen=None, record=True):
+def run_impl(sample, alpha, deg_step, supplied=True, n=None, gen=None, record=True, dtype=None):
     """Runs the real DirectSamplingContour.  Returns dict(coords, rec, n_attr, sample_attr, requested) or dict(err)."""
     import virocon.contours as vc
     rec = NpRecorder(np)
@@ -96,7 +96,7 @@ def run_impl(sample, alpha, deg_step, supplied=True, n=None, gen=None, record=Tr
     try:
         try:
             if supplied:
-                c = vc.DirectSamplingContour(model, alpha, n=n, deg_step=deg_step, sample=np.array(sample, dtype=float))
+                c = vc.DirectSamplingContour(model, alpha, n=n, deg_step=deg_step, sample=np.array(sample, dtype=float).astype(dtype or float))
             else:
                 c = vc.DirectSamplingContour(model, alpha, n=n, deg_step=deg_step)
         except Exception as e:  # noqa
@@ -105,6 +105,18 @@ def run_impl(sample, alpha, deg_step, supplied=True, n=None, gen=None, record=Tr
         vc.np = old
     return {"coords": np.array(c.coordinates, dtype=float), "rec": rec, "n_attr": c.n,
             "sample_attr": np.array(c.sample, dtype=float), "requested": model.requested}
+
+
+def with_dtype(rng, c):
+    """supplied samples also come as integer-typed or single-precision arrays (same values, so the model's answer is unchanged)"""
+    smp = np.asarray(c["sample"], dtype=float)
+    r = rng.random()
+    if np.all(smp == np.round(smp)) and r < 0.6:
+        c["dtype"] = "int64"
+    elif r < 0.15:
+        c["sample"] = smp.astype(np.float32).astype(float)
+        c["dtype"] = "float32"
+    return c
 
 
 # ------------------------------------------------------------------ case generation
@@ -172,6 +184,8 @@ def gen_cases(ctx):
         if ci < n_all:
             n = rng.randrange(50, 90)
         kind, cloud = gen_cloud(rng, nprng, n)
+        dt = with_dtype(rng, {"sample": cloud})          # one decision per cloud (the cloud is shared by its cases)
+        cloud, cloud_dtype = dt["sample"], dt.get("dtype")
         alpha = gen_alpha(rng, n)
         if ci < n_all:
             steps = list(SEARCH_DIVISORS)
@@ -181,7 +195,7 @@ def gen_cases(ctx):
                 steps = [s for s in steps if s >= 4][:2] or [rng.choice([5, 6, 10, 20, 60])]
         for s in dict.fromkeys(steps):
             ds = s if (isinstance(s, float) or rng.random() < 0.7) else float(s)
-            cases.append({"cloud": ci, "kind": kind, "sample": cloud, "alpha": alpha, "deg_step": ds, "supplied": True, "n": None})
+            cases.append({"cloud": ci, "kind": kind, "sample": cloud, "alpha": alpha, "deg_step": ds, "supplied": True, "n": None, "dtype": cloud_dtype})
     # sample drawn from the model: n = int(100 / alpha) (or the given n)
     for j in range(ctx.n(10, 60)):
         alpha = rng.choice([0.3, 0.25, 0.2, 0.15, 0.1, 0.07, 0.05, 0.03, 0.3 * rng.random() + 0.02])
@@ -246,7 +260,7 @@ def n_directions(deg_step):
 def oracle(c, r=None):
     """None if the property holds on this configuration, else (signature, message)."""
     if r is None:
-        r = run_impl(c["sample"], c["alpha"], c["deg_step"], c["supplied"], c["n"])
+        r = run_impl(c["sample"], c["alpha"], c["deg_step"], c["supplied"], c["n"], dtype=c.get("dtype"))
     cls = "DirectSamplingContour"
     if "err" in r:
         return ({"class": cls, "clause": "exception"}, "DirectSamplingContour raised " + r["err"])
@@ -334,7 +348,7 @@ def shrink(c, sig):
 
 
 def to_replay(c):
-    return {"sample": [[float(a), float(b)] for a, b in c["sample"]], "alpha": c["alpha"], "deg_step": c["deg_step"],
+    return {"dtype": c.get("dtype"), "sample": [[float(a), float(b)] for a, b in c["sample"]], "alpha": c["alpha"], "deg_step": c["deg_step"],
             "supplied": c["supplied"], "n": c["n"]}
 
 
@@ -390,7 +404,7 @@ def run(ctx):
     sid_of = {}
     for c in cases:
         c["sid"] = sid_of.setdefault(c["cloud"], len(sid_of))
-        r = run_impl(c["sample"], c["alpha"], c["deg_step"], c["supplied"], c["n"])
+        r = run_impl(c["sample"], c["alpha"], c["deg_step"], c["supplied"], c["n"], dtype=c.get("dtype"))
         results.append(r)
         key = "%s/%s" % (c["kind"], "supplied" if c["supplied"] else "drawn")
         dist[key] = dist.get(key, 0) + 1
